@@ -48,7 +48,7 @@ SELECT_BUILDERS = {
     "having": "COUNT(*) > 1", "distinct": None, "qualify": "rn = 1", "sort_by": "sb", "cluster_by": "cb", "lateral": "lt AS l", "window": "w AS (PARTITION BY p)",
 }
 WRAP_BUILDERS = ["and_", "or_", "not_", "as_", "subquery", "isin", "between", "like", "eq", "neq", "is_", "desc", "asc", "with_", "union", "limit_q"]
-NM_FUNCS = ["update_fn", "insert_fn", "column_fn", "placeholders_expr", "sql", "sql", "sql", "optimize", "qualify_copy", "annotate_copy", "diff", "diff", "lineage", "expand", "replace_tables", "replace_placeholders",
+NM_FUNCS = ["sql_all", "sql_all", "update_fn", "insert_fn", "column_fn", "placeholders_expr", "sql", "sql", "sql", "optimize", "qualify_copy", "annotate_copy", "diff", "diff", "lineage", "expand", "replace_tables", "replace_placeholders",
             "maybe_parse_copy", "binop", "dump", "alias_", "subquery_fn", "not_fn", "and_fn", "cast_fn", "find_tables", "to_s", "union_fn", "copy_eq"]
 BAD_SQL = "SELECT (((("
 
@@ -112,7 +112,12 @@ def _gen_parse(rng, cfg):
     src = rng.random()
     ext = corpus.extracted() if cfg["use_extracted"] else []
     if ext and src < 0.45:
-        d, s = ext[rng.randrange(len(ext))]
+        if rng.random() < 0.5:
+            strata = corpus.extracted_strata()
+            st_ = strata[rng.randrange(len(strata))]
+            d, s = st_[rng.randrange(len(st_))]
+        else:
+            d, s = ext[rng.randrange(len(ext))]
     elif src < 0.8 or not cfg["use_extracted"]:
         if rng.random() < 0.6:
             d, s = None, rng.choice(corpus.SCHEMA_QUERIES)
@@ -832,6 +837,17 @@ def _apply_nm(world, op, st, res, target):
                 if "unsupported_level" in opts:
                     opts["unsupported_level"] = getattr(sqlglot.ErrorLevel, opts["unsupported_level"])
                 res["outcome"] = "ok:" + common.short_hash(n.sql(dialect=d, **opts))
+            elif f == "sql_all":
+                # the "x all target dialects" part of the property for this tree: every dialect's generator in one go
+                acc = []
+                for dd in SQL_DIALECTS:
+                    try:
+                        acc.append(common.short_hash(t.sql(dialect=dd), 3))
+                    except RecursionError:
+                        raise
+                    except Exception as e:  # noqa
+                        acc.append(type(e).__name__)
+                res["outcome"] = "ok:" + common.short_hash(acc)
             elif f == "optimize":
                 from sqlglot.optimizer import optimize
 
